@@ -78,6 +78,13 @@ def check_header(c):
     eq(devs, "hist.fields_after_another_header_was_decoded", obs_header(u1), want_obs(c))
     eq(devs, "hist.repack_after_another_header_was_decoded", bytes(u1.pack()), want)
     eq(devs, "hist.constructed_after_another_header_was_decoded", bytes(h.pack()), want)
+    # positional construction of the configuration in the documented field order
+    # (source id, destination id, sequence number, transmission mode, large-file flag, CRC flag, direction, segmentation control)
+    from spacepackets.util import ByteFieldGenerator as _G
+
+    pconf = cf.PduConfig(_G.from_int(c["idw"], c["src"]), _G.from_int(c["idw"], c["dst"]), _G.from_int(c["seqw"], c["seq"]), d.TransmissionMode(c["mode"]), d.LargeFileFlag(c["large"]),
+                         d.CrcFlag(c["crc"]), d.Direction(c["dir"]), d.SegmentationControl(c["segctrl"]))
+    eq(devs, "positional_conf.pack", bytes(H.PduHeader(d.PduType(c["pdu_type"]), d.SegmentMetadataFlag(c["seg_meta"]), c["dlen"], pconf).pack()), want)
     # the library's own default configuration, ids then set in place through the field's value (width 1): the two ids are independent
     dconf = cf.PduConfig.default()
     dconf.dest_entity_id.value = c["dst"] & 0xFF
